@@ -156,6 +156,9 @@ def main(a):
                 "tasks_histogram": {k[6:]: v for k, v in counters.items() if k.startswith("tasks_")},
                 "simulated_sync": {k: counters.get(k, 0) for k in ("guard_acquires", "guard_waits", "mutex_locks", "mutex_waits", "once_calls", "atomic_ops", "clock_reads", "random_reads")},
                 "runs_discarded_for_unsupported_sync": counters.get("discarded_unsupported_sync", 0),
+                "reach_probes": {"what": "entries of rare-path functions by simulated tasks (calls / runs in which it was entered)",
+                                 "calls": {k[6:]: v for k, v in counters.items() if k.startswith("probe_")},
+                                 "runs": {k[10:]: v for k, v in counters.items() if k.startswith("proberuns_")}},
                 "operation_coverage": cover,
                 "fault_kinds": {"preemption inside a library call": counters.get("preemptions_inside_operation", 0),
                                 "forced switch after write to shared-candidate memory": counters.get("conflict_switches", 0),
